@@ -121,6 +121,10 @@ var deadlineTemplates = []failTpl{
 	{"deadline-list-loop", "cancelled", func(r *core.Rng, _ []string) string {
 		return fmt.Sprintf(`(() => { t := 0; for e = 0:%d { t = t + e }; t })()`, 50+r.Intn(200))
 	}},
+	{"deadline-caught-in-callee", "cancelled", func(r *core.Rng, _ []string) string {
+		// the deadline strikes inside slowf; tryf swallows the error with catch() and must not be remembered with it
+		return fmt.Sprintf(`(() => { slowf := x => { y := x; for j = %d { y = y + j }; y }; tryf := d => catch(slowf(d)); r := tryf(%d); println(r.err); r.err })()`, 100+r.Intn(300), r.Intn(5))
+	}},
 	{"deadline-sleep", "cancelled", func(r *core.Rng, _ []string) string {
 		return fmt.Sprintf(`(() => { for i = 5 { sleep(%d.5) }; 1 })()`, r.Intn(3))
 	}},
